@@ -395,6 +395,207 @@ fn display_case(out: &mut Out, w: &[u8]) {
     out.case(&c, &chars_word(&text), w.len() > 1, "display");
 }
 
+
+// ------------------------------------------------------------------ names parsed from a message
+/// A candidate absolute name spelled without compression: labels of steered
+/// lengths (62..65 included: 64 and 65 are not length octets at all) summing
+/// to a steered total (250..257 included), then the root label.
+fn steered_label_lens(r: &mut Rng, total: usize) -> Vec<usize> {
+    // valid label lengths (62 and 63 frequent) whose wire size adds up to `total`;
+    // one time in four one label is then stretched to 64 or 65 octets
+    let mut v = vec![]; let mut used = 0usize;
+    while used < total {
+        let left = total - used;
+        if left == 1 { match v.last_mut() { Some(x) => { *x += 1; } None => v.push(1) } break; }
+        let mut l = match r.below(5) { 0 => r.range(62, 63) as usize, 1 => r.range(1, 3) as usize, _ => r.range(1, 63) as usize };
+        if l + 1 > left { l = left - 1; }
+        if left - (l + 1) == 1 && l > 1 { l -= 1; }
+        v.push(l); used += l + 1;
+    }
+    if !v.is_empty() && r.chance(1, 4) { let i = r.below(v.len() as u64) as usize; v[i] = r.range(64, 65) as usize; }
+    v
+}
+fn gen_wire_candidate(r: &mut Rng) -> (Vec<u8>, Vec<usize>) {
+    let target = match r.below(4) { 0 => r.range(1, 40) as usize, _ => r.range(246, 258) as usize };
+    let mut w = vec![]; let mut starts = vec![];
+    for l in steered_label_lens(r, target - 1) {
+        starts.push(w.len());
+        w.push(l as u8); w.extend((0..l).map(|_| b'a' + r.below(26) as u8));
+    }
+    starts.push(w.len());
+    w.push(0);
+    (w, starts)
+}
+
+fn parsed_checks<'a>(out: &mut Out, case: &str, what: &str, buf: &'a [u8], start: usize, want_ok: bool, want: &[u8]) {
+    use domain::base::name::{FlattenInto, ParsedName, ToLabelIter, ToName};
+    use octseq::parse::Parser;
+    let r = catch(std::panic::AssertUnwindSafe(|| {
+        let mut p = Parser::from_ref(buf);
+        p.advance(start).unwrap();
+        ParsedName::parse(&mut p).map(|pn| {
+            let v = pn.to_vec().as_slice().to_vec();
+            let mut c = Vec::new(); pn.compose(&mut c).unwrap();
+            let cl = usize::from(pn.compose_len());
+            let labels: usize = pn.iter_labels().map(|l| l.len() + 1).sum();
+            let f: Name<Vec<u8>> = pn.clone().flatten_into();
+            (v, c, cl, labels, f.as_slice().to_vec(), p.pos())
+        })
+    }));
+    match r {
+        Err(e) => out.check(false, "parsed_name_panic", case, &format!("{}: {}", what, e)),
+        Ok(Err(_)) => out.check(!want_ok, "parsed_vs_flat_mismatch", case, &format!("{}: ParsedName::parse rejects a name that Name::from_octets accepts", what)),
+        Ok(Ok((v, c, cl, labels, f, _pos))) => {
+            out.check(want_ok, "parsed_vs_flat_mismatch", case, &format!("{}: ParsedName::parse accepts {} octets that Name::from_octets rejects", what, v.len()));
+            let ok = check_abs(&v);
+            out.check(ok.is_ok(), "parsed_name_invalid", case, &format!("{}: to_vec gives {:?} ({} octets)", what, ok, v.len()));
+            out.check(check_abs(&f).is_ok() && check_abs(&c).is_ok(), "parsed_name_invalid", case, &format!("{}: flatten_into/compose give an invalid name", what));
+            out.check(v == c && v == f && cl == v.len() && labels == v.len(), "parsed_name_len_mismatch", case,
+                &format!("{}: to_vec {} compose {} flatten {} compose_len {} labels {}", what, v.len(), c.len(), f.len(), cl, labels));
+            if want_ok { out.check(v == want, "parsed_name_octets", case, what); }
+        }
+    }
+}
+
+fn parsed_case(out: &mut Out, r: &mut Rng) {
+    use octseq::parse::Parser;
+    let (w, starts) = gen_wire_candidate(r);
+    let case = format!("parsed {}", hex(&w));
+    out.begin(&case);
+    let flat = Name::from_octets(w.clone());
+    let want_ok = flat.is_ok();
+    {   // coverage counters for the boundary the limit tests guard
+        let lens: Vec<usize> = starts.windows(2).map(|p| p[1] - p[0] - 1).collect();
+        if lens.iter().all(|&l| l <= 63) { match w.len() { 255 => out.count("cov:parsed_total_255"), 256 => out.count("cov:parsed_total_256"), _ => {} } }
+        if w.len() <= 255 && lens.iter().any(|&l| l == 64) { out.count("cov:parsed_label_64"); }
+        if lens.iter().all(|&l| l <= 63) && lens.iter().any(|&l| l == 63) && w.len() <= 255 { out.count("cov:parsed_label_63_ok"); }
+    }
+    out.check(want_ok == check_abs(&w).is_ok(), "name_check_slice_wrong", &case, "");
+    // uncompressed, at an offset
+    let pad = r.range(0, 3) as usize;
+    let mut buf = vec![0xAAu8; pad]; buf.extend_from_slice(&w); buf.extend_from_slice(&[0x55, 0x55]);
+    parsed_checks(out, &case, "uncompressed", &buf, pad, want_ok, &w);
+    // Name::parse on the same octets
+    let np = catch(std::panic::AssertUnwindSafe(|| {
+        let mut p = Parser::from_ref(&buf[..]); p.advance(pad).unwrap();
+        Name::parse(&mut p).map(|n: Name<&[u8]>| n.as_slice().to_vec())
+    }));
+    match np {
+        Err(e) => out.check(false, "parsed_name_panic", &case, &format!("Name::parse: {}", e)),
+        Ok(Err(_)) => out.check(!want_ok, "name_parse_vs_flat_mismatch", &case, "Name::parse rejects what from_octets accepts"),
+        Ok(Ok(v)) => {
+            out.check(want_ok, "name_parse_vs_flat_mismatch", &case, &format!("Name::parse accepts {} octets that from_octets rejects", v.len()));
+            out.check(check_abs(&v).is_ok(), "parsed_name_invalid", &case, &format!("Name::parse gives {:?}", check_abs(&v)));
+        }
+    }
+    // compressed: the tail from a label start is stored first, the head points to it
+    if starts.len() >= 2 {
+        let k = starts[r.below(starts.len() as u64) as usize];
+        let (head, tail) = w.split_at(k);
+        let mut buf = vec![0xAAu8; 2];
+        let tpos = buf.len();
+        buf.extend_from_slice(tail);
+        let hpos = buf.len();
+        buf.extend_from_slice(head);
+        buf.push(0xC0 | ((tpos >> 8) as u8)); buf.push(tpos as u8);
+        buf.extend_from_slice(&[0x55, 0x55]);
+        parsed_checks(out, &case, &format!("pointer to the tail at label {}", k), &buf, hpos, want_ok, &w);
+    }
+    out.oracle_case(&case, w.len() > 2, "parsed_name");
+}
+
+// ------------------------------------------------------------------ names scanned from zone-file text
+/// presentation text of `labels`; `esc` selects how octets are spelled
+fn zf_name_text(r: &mut Rng, labels: &[Vec<u8>], absolute: bool, esc_label: Option<usize>) -> String {
+    let mut s = String::new();
+    for (i, l) in labels.iter().enumerate() {
+        if i > 0 { s.push('.'); }
+        for (j, &b) in l.iter().enumerate() {
+            let escape_here = esc_label == Some(i) && (j == 0 || j + 1 == l.len() || r.chance(1, 6));
+            if escape_here {
+                if r.chance(1, 2) { s.push_str(&format!("\\{:03}", b)); } else { s.push('\\'); s.push(b as char); }
+            } else { s.push(b as char); }
+        }
+    }
+    if absolute { s.push('.'); }
+    s
+}
+fn zf_labels(r: &mut Rng, total: usize) -> Vec<Vec<u8>> {
+    steered_label_lens(r, total).into_iter().map(|l| (0..l).map(|_| b'a' + r.below(26) as u8).collect()).collect()
+}
+fn zonefile_case(out: &mut Out, r: &mut Rng) {
+    use domain::base::name::{ToLabelIter, ToName};
+    use domain::rdata::ZoneRecordData;
+    use domain::zonefile::inplace::{Entry, Zonefile};
+    let ol = *r.pick(&[0usize, 4, 12, 30]);
+    let origin_labels: Vec<Vec<u8>> = if ol == 0 { vec![] } else { vec![vec![b'o'; ol / 2 - 1], vec![b'g'; ol - ol / 2 - 1]] };
+    let origin_len: usize = origin_labels.iter().map(|l| l.len() + 1).sum::<usize>() + 1;
+    let expect_ok = std::cell::Cell::new(true);
+    let cov = std::cell::Cell::new(0u8); let cov255 = std::cell::Cell::new(false); let cov256 = std::cell::Cell::new(false);
+    let mk = |r: &mut Rng, steered: bool| -> String {
+        let absolute = r.chance(1, 2);
+        let room = if absolute { 254 } else { 255usize.saturating_sub(origin_len) };
+        let total = if !steered { r.range(2, 40) as usize } else { (room as i64 + r.range(0, 7) as i64 - 5).max(2) as usize };
+        let labels = zf_labels(r, total);
+        let esc = match r.below(4) { 0 => None, 1 => Some(0), 2 => Some(labels.len() - 1), _ => Some(r.below(labels.len() as u64) as usize) };
+        let wire: usize = labels.iter().map(|l| l.len() + 1).sum::<usize>() + if absolute { 1 } else { origin_len };
+        if labels.iter().any(|l| l.len() > 63) || wire > 255 { expect_ok.set(false); }
+        if wire <= 255 && labels.iter().filter(|l| l.len() > 63).count() == 1 && labels.iter().any(|l| l.len() == 64) {
+            cov.set(if esc.is_some() { 2 } else { 1 });
+        }
+        if wire == 255 && labels.iter().all(|l| l.len() <= 63) { cov255.set(true); }
+        if wire == 256 && labels.iter().all(|l| l.len() <= 63) { cov256.set(true); }
+        zf_name_text(r, &labels, absolute, esc)
+    };
+    let which = r.below(3);
+    let owner = mk(r, which != 1);
+    let target = mk(r, which != 0);
+    let target = if r.chance(1, 6) { format!("\"{}\"", target) } else { target };
+    let origin_text = if origin_labels.is_empty() { ".".to_string() } else { zf_name_text(r, &origin_labels, true, None) };
+    let text = format!("$ORIGIN {}\n{} 3600 IN NS {}\n", origin_text, owner, target);
+    let case = format!("zonefile {}", hex(text.as_bytes()));
+    out.begin(&case);
+    let data = text.clone().into_bytes();
+    let res = catch(move || {
+        let mut z = Zonefile::from(&data[..]);
+        let mut names: Vec<(Vec<u8>, usize, usize)> = vec![];
+        loop {
+            match z.next_entry() {
+                Ok(Some(Entry::Record(rec))) => {
+                    let o = rec.owner();
+                    let mut c = Vec::new(); o.compose(&mut c).unwrap();
+                    names.push((c, usize::from(o.compose_len()), o.iter_labels().map(|l| l.len() + 1).sum()));
+                    if let ZoneRecordData::Ns(ns) = rec.data() {
+                        let n = ns.nsdname();
+                        let mut c = Vec::new(); n.compose(&mut c).unwrap();
+                        names.push((c, usize::from(n.compose_len()), n.iter_labels().map(|l| l.len() + 1).sum()));
+                    }
+                }
+                Ok(Some(_)) => {}
+                Ok(None) => { if names.is_empty() && std::env::var("C03_DEBUG").is_ok() { eprintln!("ZF-NONE :: {}", String::from_utf8_lossy(&data).replace('\n', "|")); } return names; }
+                Err(e) => { if std::env::var("C03_DEBUG").is_ok() { eprintln!("ZF-ERR {} :: {}", e, String::from_utf8_lossy(&data).chars().take(120).collect::<String>().replace('\n', "|")); } return names; }
+            }
+        }
+    });
+    match res {
+        Err(e) => out.check(false, "zonefile_name_panic", &case, &e),
+        Ok(names) => {
+            out.count(if names.is_empty() { "zonefile_rejected" } else { "zonefile_accepted" });
+            match cov.get() { 1 => out.count("cov:zonefile_label_64_plain"), 2 => out.count("cov:zonefile_label_64_with_escape"), _ => {} }
+            if cov255.get() { out.count("cov:zonefile_total_255"); }
+            if cov256.get() { out.count("cov:zonefile_total_256"); }
+            // diagnostic only (the property does not ask that every valid name is accepted)
+            if names.is_empty() == expect_ok.get() { out.count(if expect_ok.get() { "zonefile_valid_but_rejected" } else { "zonefile_invalid_but_accepted" }); }
+            for (c, cl, labels) in names {
+                let ok = check_abs(&c);
+                out.check(ok.is_ok(), "zonefile_name_invalid", &case, &format!("{:?}: {} octets {}", ok, c.len(), hex(&c)));
+                out.check(cl == c.len() && labels == c.len(), "zonefile_name_len_mismatch", &case, &format!("compose_len {} labels {} composed {}", cl, labels, c.len()));
+            }
+        }
+    }
+    out.oracle_case(&case, true, "zonefile_name");
+}
+
 // ------------------------------------------------------------------ chain
 fn chain_case(out: &mut Out, r: &mut Rng) {
     let ll = match r.below(4) { 0 => r.range(0, 20) as usize, _ => r.range(236, 254) as usize };
@@ -691,6 +892,11 @@ fn main() {
         let mut w = rel_wire(&mut r, if total == 1 { 2 } else { total }); w.push(0);
         idx += 1; if out.wants(idx) { display_case(&mut out, &w); }
     }
+
+    // ---- names parsed from messages and scanned from zone-file text (oracle only)
+    let n_msg = if a.thorough { 60_000 } else { 5_000 } * a.scale;
+    for _ in 0..n_msg { idx += 1; if out.wants(idx) { parsed_case(&mut out, &mut r); } else { let _ = r.fork(); } }
+    for _ in 0..n_msg { idx += 1; if out.wants(idx) { zonefile_case(&mut out, &mut r); } else { let _ = r.fork(); } }
 
     for k in 60..=66usize {
         let c = format!("label {}", hex(&vec![7u8; k]));
